@@ -20,6 +20,17 @@ CLAIMS = {
  "C09": ("seq", "SeqTrace compares a Dump backfill taken after every step with EventOf(document) for every document of the specification's state, in CAS order between the markers"),
  "C11": ("seq", "TLC property C11_OtherCollectionsUnchanged on the design; SeqTrace checks that the projection of the same keys in the two other collections and their feeds never changes"),
  "C17": ("seq", "TLC property C17_RevIncrementsByOne on the design; SeqTrace compares $document.revid, the number inside $document, live RevNo and backfill RevNo with the specification's revision after every step"),
+ "C12": ("seq", "SeqTrace computes, from the specification's current documents, the rows a non-stale view query must return (map function applied to every document with a body or xattrs, JSON collation order, "
+         "key / range / limit / descending / count-reduce variants) and compares them after every step of every TLC-generated behaviour with the incrementally maintained index, and at the end of each behaviour with a freshly built one"),
+ "C19": ("seq", "SeqTrace compares, after every step, three SQL queries over $_keyspace (all rows with id/body/xattrs; filter on a body property; filter on an xattr property) with the specification's live documents of that collection, on in-memory (pre-recorded iterator) and on-disk (streaming iterator) buckets"),
+ "C13": ("life", "RosmarLife (registry, handles, stores, collections, feeds) is model-checked by TLC (CountEqualsOpenHandles, DiskRegisteredIffOpen, OpenHandleHasStore, DiskDataSurvivesClose, OtherHandlesUnaffectedByClose); "
+         "TLC-simulated action lists (open in every mode / close / close again / CloseAndDelete / write / drop over 4 handles, 2 names, 3 URLs) are executed on the real code and LifeTrace validates, after every action, each call's result class, what every handle can read, the registry and the data on disk"),
+ "C14": ("exp", "RosmarExpiry is model-checked by TLC (TimerCoversEarliest, ExpiredSoon; witness: without Touch arming the timer the invariant fails); TLC-simulated scripts that set, shorten, lengthen, preserve and clear deadlines 2-4 s ahead "
+         "are executed on in-memory and on-disk buckets (incl. reopen); ExpTrace validates the expiry in force and the timer's state after every call and the real-time timeline (readable before T, tombstone and deletion event within 4 s after T)"),
+ "C16": ("life", "RosmarLife's feed part is model-checked by TLC (RunningFeedHasOpenStore, DoneIffEnded, FeedsEndOnlyForAReason); the same executed action lists (live / dump / multi-collection / bucket-level feeds started through any handle, "
+         "terminator closes, drops, closes, deletion, writes) are validated by LifeTrace: exactly one callback per write for every feed that should be running, none after the end, done channel closed iff ended, feed goroutine count"),
+ "C20": ("life", "LifeTrace treats any panic, hang (4 s watchdog per call), process crash, leaked feed goroutine or unclosed done channel in the executed lifecycle behaviours as a violation; "
+         "the concurrent families (gate scheduler) additionally replay close/delete against in-flight writers and feeds"),
  "C03": ("conc", "RosmarConc (clients, feed, runner at critical-section granularity) is model-checked by TLC for the intended design (NoLostUpdate, AtMostOneReplaces, UpdatesApplied); "
          "every maximal interleaving TLC finds for two clients x {Set, WriteCas, Update, Incr, Get, Remove, sub-document and xattr variants} is replayed on real goroutines through the gate scheduler and the recorded "
          "history is validated by SeqTrace in commit order (each result must be the sequential outcome at its linearisation point; Update-style callbacks must be stored on the version they were shown)"),
@@ -30,12 +41,6 @@ CLAIMS = {
 PENDING = {
  "C04": "HLC family not built yet in this round",
  "C10": "crash family not built yet in this round",
- "C12": "views family not built yet in this round",
- "C13": "lifecycle family not built yet in this round",
- "C14": "expiry family not built yet in this round",
- "C16": "feed lifecycle family not built yet in this round",
- "C19": "query family not built yet in this round",
- "C20": "shutdown family not built yet in this round",
 }
 try:
     from manifest_extra import CLAIMS as C2, PENDING_REMOVE, NOTES
@@ -67,7 +72,11 @@ m = {
  "engines": [{"name": "tlc-seq", "path": "/verif/spec", "serves_properties": sorted(p for p, (f, _) in CLAIMS.items() if f == "seq"),
               "kind_free_text": "RosmarStore/RosmarSeq/GenSeq/SeqTrace TLA+ modules + Go harness (vh seq)"},
              {"name": "tlc-conc", "path": "/verif/spec", "serves_properties": ["C02", "C03", "C08", "C09", "C15", "C18"],
-              "kind_free_text": "RosmarConc TLA+ module (schedules), gate scheduler + vh conc, SeqTrace feeds-line validation"}],
+              "kind_free_text": "RosmarConc TLA+ module (schedules), gate scheduler + vh conc, SeqTrace feeds-line validation"},
+             {"name": "tlc-life", "path": "/verif/spec", "serves_properties": ["C11", "C13", "C16", "C20"],
+              "kind_free_text": "RosmarLifeOps/RosmarLife/LifeTrace TLA+ modules + vh life"},
+             {"name": "tlc-exp", "path": "/verif/spec", "serves_properties": ["C14"],
+              "kind_free_text": "RosmarExpiryOps/RosmarExpiry/ExpTrace TLA+ modules + vh exp (real-time timeline)"}],
  "checks": checks,
  "notes": "All checks share family pipelines whose results are cached under /verif/.cache keyed by the hash of /repo's sources, the machinery, the seed and the tier.",
  "not_applicable": [{"property_id": p, "reason": r} for p, r in sorted(PENDING.items())],
